@@ -26,10 +26,9 @@ Record jst := mkj {
   j_locked : list N;          (* containers locked by the dispatcher *)
   j_cancelled : list (N * Z); (* cancelled from outside, when *)
   j_bad : list (N * Z);       (* vm first seen held / draining / shut down, when *)
-  j_seen : list N;            (* VMs that answered a command of the present dispatcher *)
-  j_hist : list (N * bool * Z)  (* the dispatcher's own Lock (true) / Unlock or Cancel (false) calls, latest first *)
+  j_seen : list N             (* VMs that answered a command of the present dispatcher *)
 }.
-Definition j0 : jst := mkj [] [] [] [] [] [] [].
+Definition j0 : jst := mkj [] [] [] [] [] [].
 
 Definition memNN (x : N * N) (l : list (N * N)) : bool := existsb (fun y => N.eqb (fst x) (fst y) && N.eqb (snd x) (snd y)) l.
 Definition memN (x : N) (l : list N) : bool := existsb (N.eqb x) l.
@@ -42,31 +41,30 @@ Definition grace : Z := 1500.   (* ms between a decision of the dispatcher and t
 
 Definition step_j (e : xev) (s : jst) : jst :=
   match e with
-  | XStartBegin _ vm u _ => mkj (j_live s) ((vm, u) :: j_infl s) (j_locked s) (j_cancelled s) (j_bad s) (vm :: j_seen s) (j_hist s)
+  | XStartBegin _ vm u _ => mkj (j_live s) ((vm, u) :: j_infl s) (j_locked s) (j_cancelled s) (j_bad s) (vm :: j_seen s)
   | XStartEnd _ vm u ok =>
-      mkj (if ok then (vm, u) :: j_live s else j_live s) (delNN (vm, u) (j_infl s)) (j_locked s) (j_cancelled s) (j_bad s) (j_seen s) (j_hist s)
+      mkj (if ok then (vm, u) :: j_live s else j_live s) (delNN (vm, u) (j_infl s)) (j_locked s) (j_cancelled s) (j_bad s) (j_seen s)
   | XList _ vm l =>
-      mkj (filter (fun p => negb (N.eqb (fst p) vm) || memN (snd p) l) (j_live s)) (j_infl s) (j_locked s) (j_cancelled s) (j_bad s) (vm :: j_seen s) (j_hist s)
-  | XKilled _ vm u => mkj (delNN (vm, u) (j_live s)) (j_infl s) (j_locked s) (j_cancelled s) (j_bad s) (j_seen s) (j_hist s)
+      mkj (filter (fun p => negb (N.eqb (fst p) vm) || memN (snd p) l) (j_live s)) (j_infl s) (j_locked s) (j_cancelled s) (j_bad s) (vm :: j_seen s)
+  | XKilled _ vm u => mkj (delNN (vm, u) (j_live s)) (j_infl s) (j_locked s) (j_cancelled s) (j_bad s) (j_seen s)
   | XCloud _ vms =>
       mkj (filter (fun p => memN (fst p) vms) (j_live s)) (filter (fun p => memN (fst p) vms) (j_infl s))
-          (j_locked s) (j_cancelled s) (j_bad s) (j_seen s) (j_hist s)
-  | XLock t u => mkj (j_live s) (j_infl s) (u :: j_locked s) (j_cancelled s) (j_bad s) (j_seen s) ((u, true, t) :: j_hist s)
-  | XUnlock t u | XCancel t u =>
+          (j_locked s) (j_cancelled s) (j_bad s) (j_seen s)
+  | XLock _ u => mkj (j_live s) (j_infl s) (u :: j_locked s) (j_cancelled s) (j_bad s) (j_seen s)
+  | XUnlock _ u | XCancel _ u =>
       mkj (j_live s) (j_infl s) (filter (fun x => negb (N.eqb x u)) (j_locked s)) (j_cancelled s) (j_bad s) (j_seen s)
-          ((u, false, t) :: j_hist s)
   | XExtCancel t u =>
-      mkj (j_live s) (j_infl s) (j_locked s) (match lookZ u (j_cancelled s) with Some _ => j_cancelled s | None => (u, t) :: j_cancelled s end) (j_bad s) (j_seen s) (j_hist s)
+      mkj (j_live s) (j_infl s) (j_locked s) (match lookZ u (j_cancelled s) with Some _ => j_cancelled s | None => (u, t) :: j_cancelled s end) (j_bad s) (j_seen s)
   | XInst t vm st ib =>
       if (N.eqb st 4 || negb (N.eqb ib 0)) && match lookZ vm (j_bad s) with Some _ => false | None => true end
-      then mkj (j_live s) (j_infl s) (j_locked s) (j_cancelled s) ((vm, t) :: j_bad s) (j_seen s) (j_hist s)
+      then mkj (j_live s) (j_infl s) (j_locked s) (j_cancelled s) ((vm, t) :: j_bad s) (j_seen s)
       else s
-  | XRestart _ => mkj (j_live s) (j_infl s) (j_locked s) (j_cancelled s) (j_bad s) [] (j_hist s)
+  | XRestart _ => mkj (j_live s) (j_infl s) (j_locked s) (j_cancelled s) (j_bad s) []
   | XDestroy _ vm =>
       (* environment assumption of C14: an instance that the present dispatcher gives up without ever having
          got an answer from it runs no crunch-run process *)
       if memN vm (j_seen s) then s
-      else mkj (filter (fun p => negb (N.eqb (fst p) vm)) (j_live s)) (j_infl s) (j_locked s) (j_cancelled s) (j_bad s) (j_seen s) (j_hist s)
+      else mkj (filter (fun p => negb (N.eqb (fst p) vm)) (j_live s)) (j_infl s) (j_locked s) (j_cancelled s) (j_bad s) (j_seen s)
   end.
 
 (* what the property demands when a start command arrives *)
@@ -74,7 +72,7 @@ Definition start_ok (s : jst) (t : Z) (vm u : N) (vm_booting : bool) : bool :=
   (* no crunch-run process for this container may be alive anywhere, none is being started *)
   negb (memN u (map snd (j_live s))) && negb (memN u (map snd (j_infl s))) &&
   (* the container is locked by this dispatcher at the moment the start command arrives (priority is fixed
-     > 0 in this stage; no tolerance: finding F21 is fixed) and was not cancelled from outside more than
+     > 0 in this stage; no tolerance: finding F21 is fixed by /repo dbd540e + c30ecc5) and was not cancelled from outside more than
      [grace] ago *)
   memN u (j_locked s) &&
   match lookZ u (j_cancelled s) with Some tc => t <=? tc + grace | None => true end &&
@@ -82,35 +80,11 @@ Definition start_ok (s : jst) (t : Z) (vm u : N) (vm_booting : bool) : bool :=
   negb vm_booting &&
   match lookZ vm (j_bad s) with Some tb => t <=? tb + grace | None => true end.
 
-(* Narrow trigger predicate of the residual finding F21b (model vocabulary).  /repo commit dbd540e makes
-   requeue() re-check that the container is still Locked, but not WHY it wanted to requeue: a requeue
-   goroutine spawned from an older snapshot ("Locked, crunch-run exited") that runs after the container has
-   been requeued, forgotten and LOCKED AGAIN still passes the re-check and unlocks it, while runQueue is
-   starting it.  Pattern: the dispatcher's own calls on u end with  Unlock, Lock, Unlock  and the start
-   command arrives at most [f21b_window] ms after that Lock; every other clause of start_ok holds. *)
-Definition f21b_window : Z := 250.
-Definition hist_of (u : N) (h : list (N * bool * Z)) : list (bool * Z) :=
-  map (fun x => (snd (fst x), snd x)) (filter (fun x => N.eqb (fst (fst x)) u) h).
-Definition known_f21b (s : jst) (t : Z) (vm u : N) (vm_booting : bool) : bool :=
-  negb (memN u (j_locked s)) &&
-  start_ok (mkj (j_live s) (j_infl s) (u :: j_locked s) (j_cancelled s) (j_bad s) (j_seen s) (j_hist s)) t vm u vm_booting &&
-  match hist_of u (j_hist s) with
-  | (false, _) :: (true, t2) :: (false, _) :: _ => t <=? t2 + f21b_window
-  | _ => false
-  end.
-
-(* every start command is acceptable, or is an instance of the known residual finding *)
 Fixpoint judge (s : jst) (log : list xev) : bool :=
   match log with
   | [] => true
   | e :: r =>
-      match e with XStartBegin t vm u b => start_ok s t vm u b || known_f21b s t vm u b | _ => true end && judge (step_j e s) r
-  end.
-Fixpoint known_hits (s : jst) (log : list xev) : bool :=
-  match log with
-  | [] => false
-  | e :: r =>
-      match e with XStartBegin t vm u b => negb (start_ok s t vm u b) && known_f21b s t vm u b | _ => false end || known_hits (step_j e s) r
+      match e with XStartBegin t vm u b => start_ok s t vm u b | _ => true end && judge (step_j e s) r
   end.
 
 Definition state_after (pre : list xev) : jst := fold_left (fun s e => step_j e s) pre j0.
@@ -118,8 +92,7 @@ Definition state_after (pre : list xev) : jst := fold_left (fun s e => step_j e 
 (* Prop-level statement: at every start command the conditions hold in the state reached by the events
    before it *)
 Definition E2ESpec (log : list xev) : Prop :=
-  forall pre t vm u b post, log = pre ++ XStartBegin t vm u b :: post ->
-    start_ok (state_after pre) t vm u b = true \/ known_f21b (state_after pre) t vm u b = true.
+  forall pre t vm u b post, log = pre ++ XStartBegin t vm u b :: post -> start_ok (state_after pre) t vm u b = true.
 
 (* C15: final observation *)
 Record case := mke2e {
@@ -135,9 +108,8 @@ Definition final_ok (c : case) : bool :=
 Definition spec_b (c : case) : bool := judge j0 (x_log c) && (negb (x_live c) || final_ok c).
 Definition model_b (c : case) : bool := true.
 
-(* +4: the log contains an instance of the residual finding F21b (counted only if known_findings.txt lists it open) *)
 Definition check_case (c : case) : N :=
-  ((if model_b c then 0 else 1) + (if spec_b c then 0 else 2) + (if known_hits j0 (x_log c) then 4 else 0))%N.
+  ((if model_b c then 0 else 1) + (if spec_b c then 0 else 2))%N.
 Fixpoint failing_from (i : N) (cs : list case) : list (N * N) :=
   match cs with
   | [] => []
